@@ -220,6 +220,14 @@ def main():
         "larger ploidy / allele counts / parameter values are sampled (seeded) and validated by TraceInheritance" % tier,
         "positive-iff-valid is claimed for lambda < 1 and, for a trio with an unknown parent, strictly positive frequencies",
     ]
+    summary = {}
+    for v in ck.violations:
+        k = "%s %s" % (v["kind"], json.dumps(v.get("key"), sort_keys=True))
+        summary[k] = summary.get(k, 0) + 1
+    if summary:
+        ck.note("violation_summary", summary)
+        for k, n in sorted(summary.items()):
+            print("  %6d x %s" % (n, k), flush=True)
     ck.finish()
 
 
